@@ -297,14 +297,16 @@ def run(eng, R):
     n_fmt = 0
     for c in walk_no_nested(gi.node):
         if isinstance(c, ast.Call) and isinstance(c.func, ast.Attribute) and c.func.attr == "get_formatted" and "formatter" in _txt(c.func.value):
-            kw = {k.arg: _txt(k.value) for k in c.keywords if k.arg}
-            multi = "_multi" in _txt(c.func.value)
+            # the numbers are read through the locals that hold them (whatever they are called): what counts is which fit they come from
+            kw = {k.arg: _txt(common.resolve_local(gi.node, k.value)) for k in c.keywords if k.arg}
+            multi = "_multi" in _txt(common.resolve_local(gi.node, c.func.value))
             n_fmt += 1
             val = kw.get("value")
             ndf = kw.get("n_degrees_of_freedom")
-            okv = val in (("_multi_gof", "_multi_cost_function_value") if multi else ("_gof_value", "_cost_function_value"))
-            okn = ndf is None or ndf == ("_multi_ndf" if multi else "_ndf")
-            okpair = not (ndf is not None and val not in ("_gof_value", "_multi_gof"))
+            own = "self._multifit" if multi else "plot_adapter._fit"
+            okv = val in (own + ".goodness_of_fit", own + ".cost_function_value")
+            okn = ndf is None or ndf == own + ".ndf"
+            okpair = not (ndf is not None and val != own + ".goodness_of_fit")
             R.ob("F-info", "Plot._get_fit_info:cost text@%d" % n_fmt, okv and okn and okpair, (gi.file, c.lineno),
                  "cost text must print the %s fit's own numbers, and '/ ndf' only together with the goodness of fit (value=%s, ndf=%s)" % ("multi" if multi else "single", val, ndf))
     if n_fmt < 4:
